@@ -527,6 +527,44 @@ theorem fit_ok_rowFits (t t' : Table) (h : fitToPdb .cif t = .ok t') : t'.all ro
     simp only [rowFits, Bool.and_eq_true, decide_eq_true_eq, h3, List.length_singleton]
     omega
 
+/-- the same for a PDB-derived table, **when the source tests such tables** (`pdbAssumedToFit = false`) -/
+theorem fit_ok_rowFitsPdb (hb : ParserV2.pdbAssumedToFit = false) (t t' : Table)
+    (h : fitToPdb .pdb t = .ok t') : t'.all rowFitsPdb = true := by
+  cases hc : canWritePdb .pdb t with
+  | true =>
+    have := fit_of_canWrite .pdb t t' h hc
+    subst this
+    simpa [canWritePdb, hb] using hc
+  | false =>
+    rw [List.all_eq_true]
+    intro a ha
+    obtain ⟨-, h2, ⟨c, -, h3⟩, -, h5, -⟩ := fit_ok_satisfies_limits .pdb t t' h hc a ha
+    have b1 : ParserV2.maxSerial ≤ ParserV2.canWritePdbMaxSerial := by decide
+    have b2 : ParserV2.maxResSeq ≤ ParserV2.canWritePdbMaxResSeq := by decide
+    have b3 : 1 ≤ ParserV2.canWritePdbMaxChainLen := by decide
+    simp only [rowFitsPdb, Bool.and_eq_true, decide_eq_true_eq, h3, List.length_singleton]
+    omega
+
+/-- every returned table, either format, satisfies the three limits of the statement — when the source tests
+PDB-derived tables too -/
+theorem fit_ok_limits (hb : ParserV2.pdbAssumedToFit = false) (fmt : Format) (t t' : Table)
+    (h : fitToPdb fmt t = .ok t') :
+    ∀ a ∈ t', a.serial ≤ 99999 ∧ a.chain.length ≤ 1 ∧ a.resSeq ≤ 9999 := by
+  have c1 : ParserV2.canWriteMaxSerial = 99999 ∧ ParserV2.canWriteMaxChainLen = 1 ∧
+      ParserV2.canWriteMaxResSeq = 9999 := by decide
+  have c2 : ParserV2.canWritePdbMaxSerial = 99999 ∧ ParserV2.canWritePdbMaxChainLen = 1 ∧
+      ParserV2.canWritePdbMaxResSeq = 9999 := by decide
+  intro a ha
+  cases fmt with
+  | cif =>
+    have := List.all_eq_true.1 (fit_ok_rowFits t t' h) a ha
+    simp only [rowFits, Bool.and_eq_true, decide_eq_true_eq, c1.1, c1.2.1, c1.2.2] at this
+    omega
+  | pdb =>
+    have := List.all_eq_true.1 (fit_ok_rowFitsPdb hb t t' h) a ha
+    simp only [rowFitsPdb, Bool.and_eq_true, decide_eq_true_eq, c2.1, c2.2.1, c2.2.2] at this
+    omega
+
 theorem within_newRow (a : Atom) (s r : Int) (c : Char)
     (ho : withinPdbLimits { a with serial := 1, chain := ['A'], resSeq := 1, iCode := [] } = true)
     (hs1 : 1 ≤ s) (hs2 : s ≤ (ParserV2.maxSerial : Int)) (hc : c ∈ ParserV2.chainAlphabet)
@@ -595,5 +633,24 @@ example : ∀ a ∈ exT', withinPdbLimits a = true :=
 example : refuses .cif exBig = true := by decide
 example : fitToPdb .cif exBig = .error .valueError := by decide
 example : refuses .cif exT = false := by decide
+
+/-! ## PDB-derived tables whose identifiers were edited (the two behaviours of `can_write_pdb`) -/
+
+/-- a PDB-derived table after an edit of its identifiers (what `unifier.main` does when it copies the most common
+identifiers into every file): one residue, chain `AA` -/
+def exEdited : Table := [exRow 1 "AA".toList 1 [], exRow 2 "AA".toList 1 []]
+
+/-- the behaviour up to the fix: a PDB-derived table is returned as it is, whatever it holds -/
+theorem fit_pdb_assumed (hb : ParserV2.pdbAssumedToFit = true) (t : Table) : fitToPdb .pdb t = .ok t :=
+  fit_id .pdb t (by simp [canWritePdb, hb])
+
+/-- the present behaviour on the edited table: it is renamed -/
+theorem fit_pdb_edited (hb : ParserV2.pdbAssumedToFit = false) :
+    fitToPdb .pdb exEdited = .ok [exRow 1 ['A'] 1 [], exRow 2 ['A'] 1 []] := by
+  have hc : canWritePdb .pdb exEdited = false := by
+    simp only [canWritePdb, hb]; decide
+  unfold fitToPdb
+  rw [hc]
+  decide
 
 end RnaVerif.Fit
